@@ -76,6 +76,8 @@ type GenOpts struct {
 	// ForceFields returns field numbers a definition of message g must carry
 	// (if the profile has them).
 	ForceFields func(rng *Rand, g uint16) []byte
+	// ZeroFieldDefs: chance in 100 that a definition of a known message lists no profile field at all.
+	ZeroFieldDefs int
 	// ValueFor overrides the value of a scalar field (ok=false: default patterns).
 	ValueFor func(rng *Rand, g uint16, num byte) (v uint64, ok bool)
 	// SizeFor overrides the definition size of a field (ok=false: default).
@@ -120,15 +122,24 @@ func UnknownMesgNums() []uint16 {
 // signedness, integer-like only.
 func narrowTypes(pb ref.BaseType) []ref.BaseType {
 	var out []ref.BaseType
-	if !pb.Integer {
-		return nil
-	}
 	for _, bt := range ref.BaseTypes {
-		if bt.Integer && bt.Signed == pb.Signed && bt.Size < pb.Size {
+		if bt.Code == pb.Code {
+			continue
+		}
+		switch {
+		case UnsignedLike(pb) && UnsignedLike(bt) && bt.Size <= pb.Size:
+			// devices routinely write enum for uint8 fields and 1-byte types for wider dynamic fields
+			out = append(out, bt)
+		case pb.Integer && pb.Signed && bt.Integer && bt.Signed && bt.Size < pb.Size:
 			out = append(out, bt)
 		}
 	}
 	return out
+}
+
+// UnsignedLike reports whether a base type denotes a non-negative integer: enum, byte, uintN, uintNz.
+func UnsignedLike(bt ref.BaseType) bool {
+	return !bt.Signed && !bt.Float && bt.Code != 0x07
 }
 
 // GenFieldDef picks a compatible definition for profile field pf.
@@ -270,7 +281,7 @@ func GenFieldData(rng *Rand, pf *ref.PField, fd ref.FieldDef, arch byte, o *GenO
 		}
 		return out
 	}
-	narrow := db.Size < pb.Size
+	narrow := db.Code != pb.Code
 	elem := func() uint64 {
 		if o != nil && o.ValueFor != nil && !pf.Array {
 			if v, ok := o.ValueFor(rng, pf.Mesg, pf.Num); ok {
@@ -427,6 +438,9 @@ func (g *PlanGen) Define(local byte, m uint16, knownMsg bool) {
 			n := 0
 			if len(fields) > 0 {
 				n = 1 + rng.Intn(min(max, len(fields)))
+			}
+			if g.O.ZeroFieldDefs > 0 && rng.Chance(g.O.ZeroFieldDefs, 100) {
+				n = 0 // a definition without fields is legal: its records are all-invalid messages
 			}
 			for _, i := range rng.Perm(len(fields))[:n] {
 				pick = append(pick, fields[i])
